@@ -46,23 +46,29 @@ Lemma valid_key_nonempty s : valid_key s = true -> s <> ""%string.
 Proof. destruct s; simpl; congruence. Qed.
 
 (* ---------------------------------------------------------------- stores *)
-(* an element of the updated store is the new record or an old one *)
+(* an element of the updated store is the new record or an old one with another id *)
+Lemma In_insert_rec r l x : In x (insert_rec r l) <-> x = r \/ In x l.
+Proof.
+  induction l as [|y t IH]; simpl; [intuition|].
+  destruct (r_id r <? r_id y); simpl; [intuition|]. rewrite IH. intuition.
+Qed.
+Lemma In_put_rec_iff r l x : In x (put_rec r l) <-> x = r \/ (In x l /\ r_id x <> r_id r).
+Proof.
+  unfold put_rec. destruct (existsb (fun y => r_id y =? r_id r) l) eqn:E.
+  - rewrite in_map_iff. split.
+    + intros (y & Hy & Iy). destruct (r_id y =? r_id r) eqn:F; [left; auto|right; subst; split; auto; lia].
+    + intros [->|[Ix Nx]].
+      * apply existsb_exists in E. destruct E as (y & Iy & Hy). exists y. rewrite Hy. auto.
+      * exists x. split; auto. destruct (r_id x =? r_id r) eqn:F; auto. lia.
+  - rewrite In_insert_rec. split; intros [H|H]; auto.
+    + right. split; auto. intros F. assert (X : existsb (fun y => r_id y =? r_id r) l = true); [|congruence].
+      apply existsb_exists. exists x. split; auto. lia.
+    + right. tauto.
+Qed.
 Lemma In_put_rec r l x : In x (put_rec r l) -> x = r \/ In x l.
-Proof.
-  induction l as [|y t IH]; simpl.
-  - intros [H|[]]; auto.
-  - destruct (r_id y =? r_id r).
-    + intros [H|H]; auto.
-    + destruct (r_id r <? r_id y).
-      * intros [H|[H|H]]; auto.
-      * intros [H|H]; auto. destruct (IH H); auto.
-Qed.
+Proof. rewrite In_put_rec_iff. tauto. Qed.
 Lemma put_rec_In r l : In r (put_rec r l).
-Proof.
-  induction l as [|y t IH]; simpl; auto.
-  destruct (r_id y =? r_id r); [left; reflexivity|].
-  destruct (r_id r <? r_id y); [left; reflexivity|right; exact IH].
-Qed.
+Proof. rewrite In_put_rec_iff. auto. Qed.
 
 Lemma get_rec_In s id x : get_rec s id = Some x -> In x (recs s) /\ r_id x = id.
 Proof.
@@ -309,7 +315,7 @@ Qed.
 Theorem step_psteps (kg : state -> string -> Prop) s o s' :
   match o with
   | OSetKeysProp new => kgG s new -> kg s new
-  | OSetKeysMsg _ new => kg s new
+  | OSetKeysMsg _ new => (msg_guard s = true -> kgG s new -> kg s new) /\ (msg_guard s = false -> kg s new)
   | _ => True end ->
   step s o = Ok s' -> psteps (allowed_of s o) kg (mv_of o) s s'.
 Proof.
@@ -329,7 +335,12 @@ Proof.
     destruct (ukeys_valid new); [|discriminate]. inv H. apply psteps_one. apply p_ukeys. apply Hk.
     unfold kgG. apply negb_false_iff in E. apply String.eqb_eq in E. exact E.
   - unfold set_keys_msg in H. destruct (negb (mem p (perm_n s))); [discriminate|].
-    destruct (ukeys_valid new); [|discriminate]. inv H. apply psteps_one. apply p_ukeys. exact Hk.
+    destruct (msg_guard s) eqn:G; simpl in H.
+    + destruct (negb (String.eqb (ensure_old_unique_keys_not_removed (ukeys s) new) "")); [discriminate|].
+      destruct (negb (String.eqb (ensure_unique_keys (kv_of s) (ukeys s) new) "")) eqn:E; [discriminate|].
+      destruct (ukeys_valid new); [|discriminate]. inv H. apply psteps_one. apply p_ukeys. destruct Hk as [Hk _]. apply Hk; auto.
+      unfold kgG. apply negb_false_iff in E. apply String.eqb_eq in E. exact E.
+    + destruct (ukeys_valid new); [|discriminate]. inv H. apply psteps_one. apply p_ukeys. destruct Hk as [_ Hk]. apply Hk; auto.
   - eapply rotate_psteps; eauto.
 Qed.
 
@@ -477,7 +488,7 @@ Qed.
 (* the whole-record write of the network properties is the only operation without the
    EnsureUniqueKeys guard; [op_guard] states that guard for it *)
 Definition op_guard (s : state) (o : op) : Prop :=
-  match o with OSetKeysMsg _ new => kgG s new | _ => True end.
+  match o with OSetKeysMsg _ new => msg_guard s = true \/ kgG s new | _ => True end.
 Fixpoint guarded (s : state) (ops : list op) : Prop :=
   match ops with [] => True | o :: r => op_guard s o /\ guarded (step_tx s o) r end.
 
@@ -485,6 +496,7 @@ Lemma step_KU s o s' : op_guard s o -> step s o = Ok s' -> KU s -> KU s'.
 Proof.
   intros G H. eapply psteps_inv; [intros; eapply pstep_KU; eauto|].
   eapply (step_psteps kgG); [|exact H]. destruct o; simpl in *; auto.
+  split; auto. intros M. destruct G as [G|G]; [congruence|exact G].
 Qed.
 Lemma step_tx_KU s o : op_guard s o -> KU s -> KU (step_tx s o).
 Proof.
@@ -805,8 +817,9 @@ Definition owner_frame (s : state) (o : op) (s' : state) : Prop :=
 
 (* ---- concrete starting state for the witnesses and examples *)
 Definition bal0 : acct -> string -> Z := fun x d => match x with User _ => 5000 | Gov => 0 end.
-(* [del_fix = false]: the code as it is (DeleteIdentityRecordById leaves the index entry) *)
-Definition s0 : state := init_state "moniker,username" 0 [0] [1] [6] [0; 1; 2; 3] [0; 1; 2; 3] bal0 false.
+(* the OLD variant of the code: [del_fix = false] (DeleteIdentityRecordById left the index entry
+   behind, before commit 9fe909f) and [msg_guard = false] (whole-record write unguarded) *)
+Definition s0 : state := init_state "moniker,username" 0 [0] [1] [6] [0; 1; 2; 3] [0; 1; 2; 3] bal0 false false.
 
 Lemma KU_s0 : KU s0.
 Proof. split; intros r; simpl; tauto. Qed.
@@ -918,12 +931,7 @@ Qed.
 
 (* ================================================================ the local reason why only owners edit *)
 Lemma put_rec_keeps r l x : In x l -> r_id x <> r_id r -> In x (put_rec r l).
-Proof.
-  induction l as [|y t IH]; simpl; intros Hx Hn; [destruct Hx|].
-  destruct (r_id y =? r_id r) eqn:E.
-  - destruct Hx as [->|Hx]; [lia|right; exact Hx].
-  - destruct (r_id r <? r_id y); [right; exact Hx|]. destruct Hx as [->|Hx]; [left; reflexivity|right; auto].
-Qed.
+Proof. rewrite In_put_rec_iff. auto. Qed.
 (* a SetIdentityRecord write whose id is unused, or used only by records of the writer, leaves every
    other address' records untouched (nothing of theirs created, changed or deleted) *)
 Lemma set_record_owner_frame s r s' :
